@@ -256,6 +256,17 @@ fn judge_grid(case: &Case, l: &mut Local) {
                 Ok(m) => m,
                 Err(_) => continue,
             };
+            // the same mesh through the constructor with options carries the same map
+            {
+                let again = UvMapping::new(if mirrored { uv.iter().map(|p| Point2::new(p.x, -p.y)).collect() } else { uv.clone() }, f1.clone()).ok();
+                let via = Mesh::new_with_options(v.clone(), f1.clone(), false, false, false, again);
+                let p0 = Point3::from((v[f1[0][0] as usize].coords + v[f1[0][1] as usize].coords + v[f1[0][2] as usize].coords) / 3.0);
+                let ok = match &via {
+                    Ok(mo) => mo.uv().is_some() && mo.uv_with_tol(&(p0 + Vector3::new(0.0, 0.0, 0.01)), 0.1, 0.5, None).and_then(|(q, _)| mo.uv_to_3d(&q)).map(|b| d3(&b.point, &p0) <= 1e-6).unwrap_or(false),
+                    Err(_) => false,
+                };
+                l.check("a mesh built through the constructor with options keeps the UV map it was given", "", ok, mk, || format!("uv present: {:?}", via.as_ref().map(|m| m.uv().is_some()).ok()));
+            }
             let m2 = Mesh::new_with_uv(v.clone(), f1.clone(), false, Some(map));
             // a mesh that carries a UV map cannot take on more faces (the map would no longer cover them): the
             // attempt is refused in both directions and leaves the mesh as it was
